@@ -25,9 +25,13 @@ class frame_t
 {
 public:
     int n;
-    int ids[4];
+    symbol_t syms[4];
     size_t get_size() const { return (size_t)n; }
-    symbol_t get_symbol(uint32_t i) const { __CPROVER_assert(i < (uint32_t)n, "stub: frame index in range"); return symbol_t(ids[i]); }
+    symbol_t get_symbol(uint32_t i) const { __CPROVER_assert(i < (uint32_t)n, "stub: frame index in range"); return syms[i]; }
+    symbol_t operator[](uint32_t i) const { return get_symbol(i); }
+    /* iteration (a range-for over the frame is lowered to this, rule L7) */
+    symbol_t* begin() const { return (symbol_t*)&syms[0]; }
+    symbol_t* end() const { return (symbol_t*)&syms[0] + n; }
 };
 struct declarations_t { frame_t frame; };
 class FeatureChecker;
@@ -199,7 +203,7 @@ extern "C" void w_c17_variable(int tk, unsigned tw, int ek, unsigned ew, int ini
 extern "C" void w_c17_frame(int n, int k0, unsigned w0, int ek0, unsigned ew0, int k1, unsigned w1, int k2, unsigned w2, int sym, int sto, int con, int* osym, int* osto, int* ocon)
 {
     verif_syms[0].type = mk_arr(k0, w0, ek0, ew0, 0); verif_syms[1].type = mk(k1, w1); verif_syms[2].type = mk(k2, w2);
-    frame_t f; f.n = n; f.ids[0] = 0; f.ids[1] = 1; f.ids[2] = 2; f.ids[3] = 0;
+    frame_t f; f.n = n; f.syms[0] = symbol_t(0); f.syms[1] = symbol_t(1); f.syms[2] = symbol_t(2); f.syms[3] = symbol_t(0);
     FeatureChecker fc; FLAGS_IN(fc);
     fc.visitFrame(f);
     FLAGS_OUT(fc);
@@ -207,7 +211,7 @@ extern "C" void w_c17_frame(int n, int k0, unsigned w0, int ek0, unsigned ew0, i
 extern "C" void w_c17_ctor(int dyn, int prio, int n, int k0, unsigned w0, int* osym, int* osto, int* ocon, int* accepted)
 {
     verif_syms[0].type = mk(k0, w0);
-    Document d; d.dyn = dyn != 0; d.prio = prio != 0; d.accepted = 0; d.global.frame.n = n; d.global.frame.ids[0] = 0;
+    Document d; d.dyn = dyn != 0; d.prio = prio != 0; d.accepted = 0; d.global.frame.n = n; d.global.frame.syms[0] = symbol_t(0);
     FeatureChecker fc(d);
     FLAGS_OUT(fc);
     *accepted = d.accepted;
